@@ -1,13 +1,13 @@
 //! The simulator installed behind quizx's seams for the duration of a run.
 
 use crate::decider::{mix, Decider};
-use quizx::verif::{Sim, Site, Snap};
+use quizx::verif::{Point, Sim, Site, Snap};
 use std::cell::RefCell;
 use std::collections::BTreeMap;
-use std::rc::Rc;
+use std::sync::{Arc, Mutex};
 
 /// Callback for the step observers (C05).
-pub trait StepObserver {
+pub trait StepObserver: Send {
     fn decomp_step(&mut self, core: &mut CoreStats, depth: i64, g: &Snap, decomp: &str, terms: &[Snap]);
     fn split_step(&mut self, core: &mut CoreStats, depth: i64, g: &Snap, parts: &[Snap]);
 }
@@ -37,6 +37,8 @@ pub struct CoreStats {
     pub bern: Vec<(Vec<bool>, f64)>,
     /// abort flag: step budget exceeded
     pub budget_exceeded: bool,
+    /// voluntary switches between simulated workers inside/between tasks
+    pub preemptions: u64,
 }
 
 impl CoreStats {
@@ -59,6 +61,14 @@ pub struct Core {
     pub step_budget: u64,
     /// stop the run after this many ambient draws
     pub draw_budget: u64,
+    /// > 0: run fork-join regions on a simulated pool of this many real worker threads, one
+    /// running at a time, with decider-chosen switches at scheduling points (DESIGN §9.8);
+    /// 0: the sequentialised whole-task model of §2.3
+    pub pool_workers: usize,
+    /// probability (in 1/16) of a voluntary switch at a scheduling point inside a task
+    pub preempt_16: usize,
+    /// per-worker nesting of tasks
+    pub nest: Vec<usize>,
 }
 
 pub const BUDGET_MARKER: &str = "QSIM_STEP_BUDGET";
@@ -74,16 +84,25 @@ impl Core {
             want_steps: false,
             step_budget: u64::MAX,
             draw_budget: u64::MAX,
+            pool_workers: 0,
+            preempt_16: 4,
+            nest: vec![],
         }
     }
 }
 
 /// Handle installed into quizx; shares the core with the harness.
-pub struct SimHandle(pub Rc<RefCell<Core>>);
+pub struct SimHandle(pub Arc<Mutex<Core>>);
+
+impl SimHandle {
+    fn core(&self) -> std::sync::MutexGuard<'_, Core> {
+        self.0.lock().unwrap_or_else(|e| e.into_inner())
+    }
+}
 
 impl Sim for SimHandle {
     fn draw64(&mut self, site: Site) -> u64 {
-        let mut c = self.0.borrow_mut();
+        let mut c = self.core();
         c.stats.rng_draws += 1;
         if c.stats.rng_draws > c.draw_budget {
             c.stats.budget_exceeded = true;
@@ -96,7 +115,7 @@ impl Sim for SimHandle {
     }
 
     fn hash_key(&mut self) -> u64 {
-        let mut c = self.0.borrow_mut();
+        let mut c = self.core();
         c.stats.hash_keys += 1;
         let k = c.dec.draw64("hash");
         c.stats.hash_digest = mix(c.stats.hash_digest, k);
@@ -104,7 +123,7 @@ impl Sim for SimHandle {
     }
 
     fn par_region(&mut self, _site: Site, n: usize) -> (Vec<usize>, Vec<usize>) {
-        let mut c = self.0.borrow_mut();
+        let mut c = self.core();
         c.stats.regions += 1;
         if n >= 2 {
             c.stats.regions_ge2 += 1;
@@ -128,31 +147,40 @@ impl Sim for SimHandle {
         (order, workers)
     }
 
-    fn task_begin(&mut self, _site: Site, _index: usize, _worker: usize) {
-        let mut c = self.0.borrow_mut();
+    fn task_begin(&mut self, _site: Site, _index: usize, worker: usize) {
+        let mut c = self.core();
         c.nesting += 1;
         c.stats.tasks += 1;
-        let n = c.nesting;
+        if c.nest.len() <= worker {
+            c.nest.resize(worker + 1, 0);
+        }
+        c.nest[worker] += 1;
+        let n = if c.pool_workers > 0 { c.nest[worker] } else { c.nesting };
         c.stats.max_nesting = c.stats.max_nesting.max(n);
     }
 
     fn task_end(&mut self, _site: Site, _index: usize) {
-        let mut c = self.0.borrow_mut();
+        let mut c = self.core();
         c.nesting = c.nesting.saturating_sub(1);
     }
 
     fn region_end(&mut self, _site: Site) {}
 
-    fn choose(&mut self, _site: Site, n: usize) -> usize {
-        self.0.borrow_mut().dec.choose("par.choose", n)
+    fn choose(&mut self, site: Site, n: usize) -> usize {
+        let mut c = self.core();
+        let v = c.dec.choose("par.choose", n);
+        if site.file.starts_with("pool.") {
+            c.stats.schedule_digest = mix(c.stats.schedule_digest, ((n as u64) << 16) | v as u64);
+        }
+        v
     }
 
     fn wants_steps(&self) -> bool {
-        self.0.borrow().want_steps
+        self.core().want_steps
     }
 
     fn decomp_step(&mut self, depth: i64, g: &Snap, decomp: &str, terms: &[Snap]) {
-        let mut c = self.0.borrow_mut();
+        let mut c = self.core();
         c.stats.decomp_steps += 1;
         c.stats.max_depth = c.stats.max_depth.max(depth);
         if c.stats.decomp_steps > c.step_budget {
@@ -167,7 +195,7 @@ impl Sim for SimHandle {
     }
 
     fn split_step(&mut self, depth: i64, g: &Snap, parts: &[Snap]) {
-        let mut c = self.0.borrow_mut();
+        let mut c = self.core();
         c.stats.split_steps += 1;
         let c = &mut *c;
         if let Some(obs) = c.observer.as_mut() {
@@ -175,8 +203,28 @@ impl Sim for SimHandle {
         }
     }
 
+    fn preempt(&mut self, point: Point, others: usize) -> Option<usize> {
+        let mut c = self.core();
+        let p16 = match point {
+            // between tasks switches are cheap and the interesting ones; inside a task rarer
+            Point::TaskStart | Point::TaskEnd => (c.preempt_16 * 2).min(16),
+            Point::Seam => c.preempt_16,
+        };
+        if p16 == 0 || others == 0 {
+            return None;
+        }
+        if c.dec.choose("pool.preempt", 16) < p16 {
+            c.stats.preemptions += 1;
+            let k = c.dec.choose("pool.to", others);
+            c.stats.schedule_digest = mix(c.stats.schedule_digest, 0x9e00 + k as u64);
+            Some(k)
+        } else {
+            None
+        }
+    }
+
     fn bernoulli(&mut self, prefix: &[bool], p: f64) {
-        self.0.borrow_mut().stats.bern.push((prefix.to_vec(), p));
+        self.core().stats.bern.push((prefix.to_vec(), p));
     }
 }
 
@@ -219,6 +267,19 @@ pub fn install_panic_hook() {
             .location()
             .map(|l| format!("{}:{}", short(l.file()), l.line()))
             .unwrap_or_default();
+        // a simulated worker thread ("qsim-w<pool>-<i>"): quiet, recorded under its pool id
+        if let Some(name) = std::thread::current().name() {
+            if let Some(rest) = name.strip_prefix("qsim-w") {
+                if let Some(id) = rest.split('-').next().and_then(|x| x.parse::<u64>().ok()) {
+                    WORKER_PANICS
+                        .lock()
+                        .unwrap_or_else(|e| e.into_inner())
+                        .entry(id)
+                        .or_insert_with(|| format!("{msg} @ {loc}"));
+                    return;
+                }
+            }
+        }
         if QUIET.with(|q| q.get()) == 0 {
             eprintln!("qsim: harness panic: {msg} @ {loc}");
         }
@@ -242,25 +303,31 @@ pub enum Caught<T> {
 /// Run `f` with a simulator core installed behind the seams; returns the result
 /// (or the panic) and the core.
 pub fn with_sim<T>(core: Core, f: impl FnOnce() -> T) -> (Caught<T>, Core) {
-    let rc = Rc::new(RefCell::new(core));
-    let prev = quizx::verif::install(Box::new(SimHandle(rc.clone())));
+    let pool_workers = core.pool_workers;
+    let arc = Arc::new(Mutex::new(core));
+    quizx::verif::install(Box::new(SimHandle(arc.clone())));
+    let pool_id = if pool_workers > 0 { quizx::verif::pool::start(pool_workers) } else { 0 };
     let _ = take_panic();
     let r = {
         let _q = QuietGuard::new();
         std::panic::catch_unwind(std::panic::AssertUnwindSafe(f))
     };
+    // stops the pool (joins the worker threads) and drops the installed handle
     let _ = quizx::verif::uninstall();
-    if let Some(p) = prev {
-        quizx::verif::install(p);
-    }
-    let core = match Rc::try_unwrap(rc) {
-        Ok(c) => c.into_inner(),
+    let core = match Arc::try_unwrap(arc) {
+        Ok(m) => m.into_inner().unwrap_or_else(|e| e.into_inner()),
         Err(_) => panic!("simulator core still shared after run"),
     };
     let out = match r {
         Ok(v) => Caught::Ok(v),
-        Err(_) => {
-            let msg = take_panic().unwrap_or_else(|| "<unknown panic>".into());
+        Err(payload) => {
+            // a panic on a simulated worker is re-raised on this thread without going
+            // through the panic hook again: its message was recorded under the pool id
+            let msg = take_panic()
+                .or_else(|| take_worker_panic(pool_id))
+                .or_else(|| payload.downcast_ref::<String>().cloned())
+                .or_else(|| payload.downcast_ref::<&str>().map(|s| s.to_string()))
+                .unwrap_or_else(|| "<unknown panic>".into());
             if msg.contains(BUDGET_MARKER) || msg.contains(crate::decider::DRAW_LIMIT_MARKER) {
                 Caught::Budget
             } else {
@@ -268,7 +335,17 @@ pub fn with_sim<T>(core: Core, f: impl FnOnce() -> T) -> (Caught<T>, Core) {
             }
         }
     };
+    let _ = take_worker_panic(pool_id);
     (out, core)
+}
+
+static WORKER_PANICS: Mutex<BTreeMap<u64, String>> = Mutex::new(BTreeMap::new());
+
+fn take_worker_panic(pool_id: u64) -> Option<String> {
+    if pool_id == 0 {
+        return None;
+    }
+    WORKER_PANICS.lock().unwrap_or_else(|e| e.into_inner()).remove(&pool_id)
 }
 
 /// Run `f` without a simulator (but still catching panics quietly).
